@@ -71,13 +71,16 @@ def pos_of(x, xp):
 
 
 # ------------------------------------------------------------------------------------------ reference expectation
-GH = np.polynomial.hermite.hermgauss(40)
-GH12 = np.polynomial.hermite.hermgauss(14)
-GL = np.polynomial.legendre.leggauss(40)
+QUAD = {
+    "hi": (np.polynomial.hermite.hermgauss(40), np.polynomial.hermite.hermgauss(26), np.polynomial.legendre.leggauss(40)),
+    "lo": (np.polynomial.hermite.hermgauss(24), np.polynomial.hermite.hermgauss(14), np.polynomial.legendre.leggauss(24)),
+}
 
 
-def expect(prog, th, upto=None, fixed=None):
-    """E[f](theta) in float64.  `fixed`: {site index: value} conditions on those site values (used for decoding)."""
+def expect(prog, th, upto=None, fixed=None, level="hi"):
+    """E[f](theta) in float64.  `fixed`: {site index: value} conditions on those site values (used for decoding).
+    level: quadrature resolution; the caller compares 'hi' with 'lo' and discards cases where they disagree."""
+    GH, GH12, GL = QUAD[level]
     sites, ret = prog["sites"], prog["ret"]
     th = [np.float64(t) for t in th]
 
@@ -130,14 +133,14 @@ def expect(prog, th, upto=None, fixed=None):
     return rec(0, [])
 
 
-def grad_ref(prog, th):
+def grad_ref(prog, th, level="hi"):
     g = []
     for i in range(len(th)):
         def f(h):
             a, b = list(th), list(th)
             a[i] += h
             b[i] -= h
-            return (expect(prog, a) - expect(prog, b)) / (2 * h)
+            return (expect(prog, a, level=level) - expect(prog, b, level=level)) / (2 * h)
 
         h = 2e-2
         g.append((4 * f(h / 2) - f(h)) / 3)
@@ -202,6 +205,15 @@ def classify(case, ctx=None, n1=6000):
     E = expect(prog, th)
     G = grad_ref(prog, th)
     info["exact_value"], info["exact_grad"] = E, G
+    # the oracle must be converged: compare with a coarser quadrature; otherwise the case is inconclusive, not a finding
+    E_lo = expect(prog, th, level="lo")
+    if abs(E - E_lo) > 2e-4 * (1.0 + abs(E)):
+        info["reference_not_converged"] = [E, E_lo]
+        return [], info
+    G_lo = grad_ref(prog, th, level="lo")
+    if any(abs(a - b) > 1e-3 * (1.0 + abs(a)) for a, b in zip(G, G_lo)):
+        info["reference_not_converged"] = [G, G_lo]
+        return [], info
     e = impl(build, prog)
     jth = [jnp.asarray(np.float32(t)) for t in th]
     c = ctx if ctx is not None else type("C", (), {"stat_tests": 0, "stat_stage2": 0})()
@@ -458,7 +470,7 @@ def one_case(ctx, case):
     nt = len(fams) >= 2 or dep or case["prog"]["ret"][0] in ("cond", "where")
     cls = [f"C11.site_{k}" for k in set(kinds)] + [f"C11.mode_{case['mode']}"] + (["C11.composition_of_different_estimator_kinds"] if len(fams) >= 2 else []) + \
           (["C11.param_depends_on_earlier_draw"] if dep else []) + ([f"C11.ret_{case['prog']['ret'][0]}"] if case["prog"]["ret"][0] in ("cond", "where") else []) + \
-          (["C11.all_enum_exact"] if info["all_enum"] else ["C11.stochastic_calibrated"]) + (["C11.batched_scalar_family_site"] if any(k.endswith(("_bs", "_bl")) for k in kinds) else [])
+          (["C11.reference_not_converged(skipped)"] if "reference_not_converged" in info else ["C11.all_enum_exact"] if info["all_enum"] else ["C11.stochastic_calibrated"]) + (["C11.batched_scalar_family_site"] if any(k.endswith(("_bs", "_bl")) for k in kinds) else [])
     ctx.case(case, nt, cls, sample={**case, "info": {k: v for k, v in info.items() if k != "sites"}})
     for b, w in fails:
         ctx.fail(b, w, case)
